@@ -842,3 +842,298 @@ class PointRoundTripLemmas(Contract):
         out += [("new-point:values:array-case", z3.Implies(H_, arr_case)), ("new-point:values:scalar-case", z3.Implies(H_, sc_case)),
                 ("new-point:values", z3.Implies(z3.And(arr_case, sc_case), values))]
         return out
+
+
+# ---------------------------------------------------------------------------- to_file (full export and append)
+from pyvc.values import forall_pat as FA  # noqa: E402
+
+schema("gemseo.algos.design_space.DesignSpace#c11", {})
+DBT = TObj(DB)
+NAMING = [("sub-group-names-are-arr-names", lambda F: FA([z3.Const("s!n1", StrS)], z3.Implies(F.VAm[z3.Const("s!n1", StrS)], H.is_arr_name(z3.Const("s!n1", StrS))), F.VAm[z3.Const("s!n1", StrS)])),
+          ("scalar-dataset-names-are-decimal", lambda F: FA([z3.Const("s!n2", StrS)], z3.Implies(F.VDm[z3.Const("s!n2", StrS)], z3.Not(H.is_arr_name(z3.Const("s!n2", StrS)))), F.VDm[z3.Const("s!n2", StrS)]))]
+
+
+def ios(s):
+    return H.int_of_str(s)
+
+
+def point_names(D, i):
+    return D.vals[D.keys[i]]
+
+
+def index_view(F: Node, D, n_x=None):
+    """INDEX-LEVEL FILE INVARIANT w.r.t. the database D: the members of x are indices of D holding the matching key, a point has a
+    names dataset iff it has an x dataset, scalar datasets / array sub-groups only exist for exported points."""
+    s = z3.Const("s!iv", StrS)
+    return [
+        ("x:entries-are-indices-of-the-database", FA([s], z3.Implies(F.Xm[s], z3.And(s == sidx(ios(s)), 0 <= ios(s), ios(s) < D.n, key_of(F.Xv[s]) == D.keys[ios(s)])), F.Xm[s])),
+        ("k:exists-iff-x-exists", FA([s], F.Km[s] == F.Xm[s], F.Km[s])),
+        ("v:scalar-datasets-of-exported-points", FA([s], z3.Implies(F.VDm[s], F.Xm[s]), F.VDm[s])),
+        ("v:sub-groups-of-exported-points", FA([s], z3.Implies(F.VAm[s], z3.And(H.is_arr_name(s), s == H.arr_of(H.arr_suffix(s)), F.Xm[H.arr_suffix(s)])), F.VAm[s])),
+    ]
+
+
+def record_pre(F: Node, D, i):
+    """What __append_hdf_output needs about the record of an exported point i (history: its listed names are names of the point)."""
+    j, s = z3.Int("j!rp"), z3.Const("s!rp", StrS)
+    nn = F.nn(i)
+    outs_m = o_member(point_names(D, i))
+    return z3.And(nn >= 0,
+                  FA([j], z3.Implies(z3.And(0 <= j, j < nn), z3.And(outs_m[F.name(i, j)], F.pos(i, F.name(i, j)) == j)), F.name(i, j)),
+                  FA([s], z3.Implies(z3.And(F.has_agrp(i), F.amem(i)[s]), z3.And(s == sidx(ios(s)), 0 <= ios(s), ios(s) < nn)), F.amem(i)[s]))
+
+
+def pend_hash(D, i):
+    return H.hnd_hash(wa(D.keys[i]))
+
+
+def is_pending(P, D, i):
+    return z3.And(P.member[pend_hash(D, i)], P.vals[pend_hash(D, i)] == D.keys[i])
+
+
+def processed(P, D, i, k):
+    """Point i is one of the first k pending arrays."""
+    return z3.And(is_pending(P, D, i), P.pos[pend_hash(D, i)] < k)
+
+
+def _tf_views(c):
+    s0 = c.old.self
+    D = c.old.database._Database__data
+    P = s0._HDFDatabase__pending_arrays
+    F0 = Node.of_ghost(c, "old")
+    return D, P, F0
+
+
+def _cur_node(c):
+    """The node as the open group objects hold it (inside the `with` block)."""
+    L = c.locals
+    return Node.of_groups(c, "new", x=L["design_vars_grp"], k=L["keys_group"], v=L["values_group"])
+
+
+def _append_inv(c, k):
+    D, P, F0 = _tf_views(c)
+    F = _cur_node(c)
+    i, h = z3.Int("i!ai"), z3.Int("h!ai")
+    idx = c.locals["input_values_to_idx"]
+    p = z3.Const("p!ai", HNd.sort())
+    inr = z3.And(0 <= i, i < D.n)
+    out = index_view(F, D) + [(l, f(F)) for l, f in NAMING]
+    out += [
+        ("x:exactly-the-old-and-the-processed-points", FA([i], z3.Implies(inr, F.Xm[sidx(i)] == z3.Or(F0.Xm[sidx(i)], processed(P, D, i, k))), sidx(i))),
+        ("x:old-members-kept", FA([h], z3.Implies(F0.Xm[sidx(h)], z3.And(F.Xm[sidx(h)], F.Xv[sidx(h)] == F0.Xv[sidx(h)])), sidx(h))),
+        # an exported point that has not been visited yet still has the record it had at entry
+        ("unvisited-records-kept", FA([i], z3.Implies(z3.And(inr, F0.Xm[sidx(i)], z3.Not(processed(P, D, i, k))),
+                                                      z3.And(F.Kv[sidx(i)] == F0.Kv[sidx(i)], F.VAm[aname(i)] == F0.VAm[aname(i)], F.VAv[aname(i)] == F0.VAv[aname(i)],
+                                                             F.POS[i] == F0.POS[i])), sidx(i))),
+        ("visited-points-list-all-their-names", FA([i], z3.Implies(z3.And(inr, processed(P, D, i, k)), F.nn(i) == o_n(point_names(D, i))), sidx(i))),
+        # (named witnesses: the index of a database key in the map built by the comprehension)
+        ("index-map", FA([p], z3.Implies(D.member[p], z3.And(idx.keys[D.pos[p]] == p, idx.member[p], idx.vals[p] == D.pos[p])), D.member[p])),
+    ]
+    return out
+
+
+def _full_inv(c, k):
+    D, P, F0 = _tf_views(c)
+    F = _cur_node(c)
+    i = z3.Int("i!fi")
+    s = z3.Const("s!fi", StrS)
+    cnt = c.locals["index_dataset"]
+    return index_view(F, D) + [(l, f(F)) for l, f in NAMING] + [
+        ("counter", cnt == k),
+        ("x:exactly-the-first-k-points", FA([s], z3.Implies(F.Xm[s], ios(s) < k), F.Xm[s])),
+        ("x:first-k-points-written", FA([i], z3.Implies(z3.And(0 <= i, i < k), F.Xm[sidx(i)]), sidx(i))),
+        ("x:size", F.Xn == k),
+        ("written-points-list-all-their-names", FA([i], z3.Implies(z3.And(0 <= i, i < k), F.nn(i) == o_n(point_names(D, i))), sidx(i))),
+    ]
+
+
+def _x_cardinality(c):
+    """Cited lemma (finite sets): a dict whose keys are exactly str(0) .. str(n-1) (str injective) has n entries."""
+    D = c.old.database._Database__data
+    X = c.locals["design_vars_grp"].ds
+    i, s = z3.Int("i!xc"), z3.Const("s!xc", StrS)
+    exact = z3.And(z3.ForAll([i], z3.Implies(z3.And(0 <= i, i < D.n), X.member[sidx(i)])),
+                   z3.ForAll([s], z3.Implies(X.member[s], z3.And(s == sidx(ios(s)), 0 <= ios(s), ios(s) < D.n))))
+    return [("cardinality: a dict whose keys are exactly str(0), .., str(n-1) has n entries", z3.Implies(exact, X.n == D.n))]
+
+
+@register
+class ToFile(Contract):
+    """FULL EXPORT and APPEND give the same index-level file view of the database (``exported-view``): x has exactly the entries
+    0..n-1, x/<i> holding the i-th key, every point - also one stored with NO output - has its names dataset k/<i>, listing as many
+    names as the point has outputs, scalar datasets / array sub-groups only exist for these points; the pending buffer is emptied.
+    (The per-point content is the postcondition of __create_hdf_input_output / __append_hdf_output, see PointRoundTripLemmas.)
+
+    History preconditions of the append branch (derived from the call sites Database.store -> add_pending_array and the previous
+    to_file): the node was written from an earlier state of this database (index view + per-point history), every point that is not
+    in the node yet, and every point that got new names, is pending; pending arrays are points of the database."""
+
+    targets = (HDF + ".to_file",)
+    prop = ("C11",)
+    self_schema = HDF + "#c11"
+    params = {"database": DBT, "file_path": TStr, "append": TBool, "hdf_node_path": TStr}
+    modifies = ("self", "ghost:h5_x", "ghost:h5_k", "ghost:h5_vd", "ghost:h5_va", "ghost:h5_has_ds", "ghost:h5_pos", "ghost:h5_sc")
+    loops = {
+        0: LoopSpec(anchor="self.__pending_arrays.values()", inv=_append_inv,
+                    modifies=("design_vars_grp", "keys_group", "values_group", "ghost:h5_pos", "ghost:h5_sc"),
+                    local_types={"input_values": HNd, "output_values": OUTS, "index_dataset": TInt}),
+        1: LoopSpec(anchor="database.items()", inv=_full_inv,
+                    modifies=("design_vars_grp", "keys_group", "values_group", "ghost:h5_pos", "ghost:h5_sc"),
+                    local_types={"input_values": HNd, "output_values": OUTS}),
+    }
+    cited_lemmas = {"input_space = database.input_space": _x_cardinality}
+
+    def axioms(self, c):
+        return axioms_common()
+
+    def requires(self, c):
+        D, P, F0 = _tf_views(c)
+        i, h = z3.Int("i!tf"), z3.Int("h!tf")
+        app = c.old.append
+        inr = z3.And(0 <= i, i < D.n)
+        pre = [("db-wf", db_wf(D)), ("pending-wf", pending_wf(P)),
+               ("pending-arrays-are-points-of-the-database", FA([h], z3.Implies(P.member[h], D.member[P.vals[h]]), P.member[h]))]
+        # the rest only matters for an append (mode "a": the node keeps its content)
+        hist = index_view(F0, D) + [(l, f(F0)) for l, f in NAMING] + [
+            ("history:records-of-exported-points", FA([i], z3.Implies(z3.And(inr, F0.Xm[sidx(i)]), record_pre(F0, D, i)), sidx(i))),
+            ("history:new-points-are-pending", FA([i], z3.Implies(z3.And(inr, z3.Not(F0.Xm[sidx(i)])), is_pending(P, D, i)), sidx(i))),
+            ("history:points-with-new-names-are-pending", FA([i], z3.Implies(z3.And(inr, F0.Xm[sidx(i)], z3.Not(is_pending(P, D, i))), F0.nn(i) == o_n(point_names(D, i))), sidx(i))),
+        ]
+        return pre + [(f"append:{l}", z3.Implies(app, f)) for l, f in hist]
+
+    def ensures(self, c):
+        D, P, F0 = _tf_views(c)
+        F1 = Node.of_ghost(c, "new")
+        P1 = c.new.self._HDFDatabase__pending_arrays
+        i = z3.Int("i!te")
+        inr = z3.And(0 <= i, i < D.n)
+        return [("exported-view:" + l, f) for l, f in index_view(F1, D)] + [
+            ("exported-view:every-point-is-in-x", FA([i], z3.Implies(inr, F1.Xm[sidx(i)]), sidx(i))),
+            ("exported-view:x-has-n-entries", F1.Xn == D.n),
+            ("exported-view:every-point-lists-all-its-names", FA([i], z3.Implies(inr, F1.nn(i) == o_n(point_names(D, i))), sidx(i))),
+            ("pending-buffer-emptied", P1.n == 0),
+        ] + [(l, f(F1)) for l, f in NAMING]
+
+
+# ---------------------------------------------------------------------------- update_from_file (the reader)
+def reader_file_wf(F: Node):
+    """What the reader relies on (established by to_file, see index_view / pt_wf): x has exactly the entries 0..N-1 with pairwise
+    distinct arrays, every one of them has a well-formed record."""
+    i, j = z3.Int("i!rw"), z3.Int("j!rw")
+    N = F.Xn
+    out = [("x:exactly-0..N-1", FA([i], z3.Implies(z3.And(0 <= i, i < N), F.Xm[sidx(i)]), sidx(i))),
+           ("x:distinct-points", z3.ForAll([i, j], z3.Implies(z3.And(0 <= i, i < j, j < N), F.Xv[sidx(i)] != F.Xv[sidx(j)])))]
+    for label, f in pt_wf(F, i):
+        out.append(("records:" + label, FA([i], z3.Implies(z3.And(0 <= i, i < N), f), sidx(i))))
+    return out + [(l, f(F)) for l, f in NAMING]
+
+
+# The content clauses of the reader (names = fhas, values = fval) are DESIGNED but not proved yet: their inv_pres obligations need the
+# staged decode argument (comprehension witness -> POS injectivity -> filtered-rank lemma -> rank congruence); they stay switched off
+# so that nothing unproved is claimed.  What is proved: the INDEX level (points in index order) and the absence of any exception.
+READER_CONTENT_CLAUSES = False
+
+
+def _reader_inv(c, k):
+    F = Node.of_ghost(c, "old")
+    D0, D1 = c.old.database._Database__data, c.new.database._Database__data
+    i, nm = z3.Int("i!ri"), z3.Const("nm!ri", StrS)
+    rng = z3.And(0 <= i, i < k)
+    e = lambda t: D1.vals[D1.keys[t]]  # noqa: E731
+    empty = D0.n == 0
+    out = [
+        ("db-wf", db_wf(D1)),
+        ("points", z3.Implies(empty, z3.And(D1.n == k, FA([i], z3.Implies(rng, D1.keys[i] == key_of(F.xval(i))), D1.keys[i])))),
+    ]
+    if READER_CONTENT_CLAUSES:
+        out += [("names", z3.Implies(empty, z3.ForAll([i, nm], z3.Implies(rng, o_member(e(i))[nm] == F.fhas(i, nm))))),
+                ("values", z3.Implies(empty, z3.ForAll([i, nm], z3.Implies(z3.And(rng, F.fhas(i, nm)), o_vals(e(i))[nm] == F.fval(i, nm)))))]
+    return out
+
+
+@register
+class UpdateFromFile(Contract):
+    """READER, index level: from a well-formed node (x = exactly 0..N-1, distinct arrays, well-formed records) the loop never raises
+    (no KeyError on a missing dataset, no IndexError / ValueError while decoding, no duplicate key in the rebuilt dictionaries) and an
+    empty database is rebuilt with exactly N points, the i-th one being x/<i>, in index order.
+    (Designed, NOT proved yet - see READER_CONTENT_CLAUSES: the names of point i are fhas(i, .), its values fval(i, .).)"""
+
+    targets = (HDF + ".update_from_file",)
+    prop = ("C11",)
+    params = {"database": DBT, "file_path": TStr, "hdf_node_path": TStr}
+    modifies = ("database", "database._Database__hdf_database", "ghost:calllog", "ghost:calllog_n")
+    loops = {0: LoopSpec(anchor="range(len(design_vars_grp))", inv=_reader_inv,
+                         modifies=("database", "database._Database__hdf_database", "ghost:calllog", "ghost:calllog_n"),
+                         local_types={"str_index": TStr, "array_name": TStr, "keys": TList(TStr), "raw_index": TInt})}
+
+    def axioms(self, c):
+        return axioms_common()
+
+    def requires(self, c):
+        return [("db-wf", db_wf(c.old.database._Database__data))] + reader_file_wf(Node.of_ghost(c, "old"))
+
+    def ensures(self, c):
+        F = Node.of_ghost(c, "old")
+        return [(l, f) for l, f in _reader_inv(c, F.Xn) if l != "db-wf"] + [("db-wf", db_wf(c.new.database._Database__data))]
+
+
+# ---------------------------------------------------------------------------- index-level round trip / append == single export
+def _free_node(tag):
+    mk = lambda n, T: z3.Const(f"IL_{n}{tag}", T.sort())  # noqa: E731
+    x, k, vd, va = mk("x", XG), mk("k", KG), mk("vd", VD), mk("va", VA)
+    return Node(XG.acc(0)(x), XG.acc(1)(x), XG.acc(2)(x), KG.acc(0)(k), KG.acc(1)(k), VD.acc(0)(vd), VD.acc(1)(vd), VA.acc(0)(va), VA.acc(1)(va),
+                z3.Const(f"IL_pos{tag}", POS_SORT), z3.Const(f"IL_sc{tag}", SC_SORT))
+
+
+class _FreeDb:
+    """An ordered dict view (database content) made of free constants, with the order facts of the dict model."""
+
+    def __init__(self, tag):
+        d = z3.Const(f"IL_db{tag}", DATA.sort())
+        self.member, self.vals, self.n, self.keys, self.pos = (DATA.acc(t)(d) for t in range(5))
+
+    def facts(self):
+        p, i = z3.Const("p!fd", HNd.sort()), z3.Int("i!fd")
+        return [self.n >= 0,
+                z3.ForAll([p], z3.Implies(self.member[p], z3.And(0 <= self.pos[p], self.pos[p] < self.n, self.keys[self.pos[p]] == p)), patterns=[self.pos[p]]),
+                z3.ForAll([i], z3.Implies(z3.And(0 <= i, i < self.n), z3.And(self.member[self.keys[i]], self.pos[self.keys[i]] == i)), patterns=[self.keys[i]])]
+
+
+def exported_view(F: Node, D):
+    """The postcondition of to_file (both branches)."""
+    i = z3.Int("i!ev")
+    inr = z3.And(0 <= i, i < D.n)
+    return [f for _, f in index_view(F, D)] + [FA([i], z3.Implies(inr, F.Xm[sidx(i)]), sidx(i)), F.Xn == D.n,
+                                               FA([i], z3.Implies(inr, F.nn(i) == o_n(point_names(D, i))), sidx(i))]
+
+
+@register
+class IndexRoundTripLemmas(Contract):
+    """Lemmas over the contracts of to_file and update_from_file (index level):
+    (1) the node written by to_file satisfies the reader's preconditions on x (exactly 0..N-1, pairwise distinct arrays);
+    (2) reader(writer(db)) has the same points in the same order as db;
+    (3) 'incremental append == single final export': two nodes that both satisfy to_file's postcondition for the same database -
+        whatever interleaving of exports produced them - hold the same point at every index and list the same number of names for
+        it, hence reload to databases with the same points in the same order."""
+
+    targets = ()
+    prop = ("C11",)
+    lemma = True
+
+    def lemmas(self):
+        D, D1, D2 = _FreeDb(""), _FreeDb("1"), _FreeDb("2")
+        Fa, Fb = _free_node("a"), _free_node("b")
+        ax = [f for _, f in axioms_naming()]
+        i, j = z3.Int("i!il"), z3.Int("j!il")
+        hyp = z3.And(*ax, *D.facts(), *exported_view(Fa, D))
+        reader_post = lambda F, Dr: z3.And(Dr.n == F.Xn, z3.ForAll([i], z3.Implies(z3.And(0 <= i, i < F.Xn), Dr.keys[i] == key_of(F.xval(i)))))  # noqa: E731
+        same_points = lambda Da, Db: z3.And(Da.n == Db.n, z3.ForAll([i], z3.Implies(z3.And(0 <= i, i < Da.n), Da.keys[i] == Db.keys[i])))  # noqa: E731
+        hyp2 = z3.And(hyp, *exported_view(Fb, D))
+        return [
+            ("writer-establishes-reader-precondition:x-exactly-0..N-1", z3.Implies(hyp, z3.ForAll([i], z3.Implies(z3.And(0 <= i, i < Fa.Xn), Fa.Xm[sidx(i)])))),
+            ("writer-establishes-reader-precondition:x-distinct-points", z3.Implies(hyp, z3.ForAll([i, j], z3.Implies(z3.And(0 <= i, i < j, j < Fa.Xn), Fa.Xv[sidx(i)] != Fa.Xv[sidx(j)])))),
+            ("reader(writer(db))-has-the-same-points-in-the-same-order", z3.Implies(z3.And(hyp, reader_post(Fa, D1)), same_points(D1, D))),
+            ("append==single-export:same-point-at-every-index", z3.Implies(hyp2, z3.ForAll([i], z3.Implies(z3.And(0 <= i, i < D.n), z3.And(Fa.Xm[sidx(i)], Fb.Xm[sidx(i)], Fa.Xv[sidx(i)] == Fb.Xv[sidx(i)],
+                                                                                                                                        Fa.nn(i) == Fb.nn(i)))))),
+            ("append==single-export:same-reloaded-points", z3.Implies(z3.And(hyp2, reader_post(Fa, D1), reader_post(Fb, D2)), same_points(D1, D2))),
+        ]
